@@ -5,8 +5,9 @@ id=$1; shift
 props="$id $@"
 wt=/tmp/wt-try
 [ -d $wt ] || git -C /repo worktree add --detach $wt HEAD >/dev/null 2>&1
-for d in /tmp/refac-$id/*/; do
-  x=$(basename $d)
+dirs=$(ls -d /tmp/refac-$id/*/ 2>/dev/null); [ -z "$dirs" ] && dirs=$(ls -d /verif/refactored/$id-*/ 2>/dev/null)
+for d in $dirs; do
+  x=$(basename $d); x=${x#$id-}
   [ -f $d/patch.diff ] || continue
   git -C $wt checkout -q --detach $(git -C /repo rev-parse HEAD) 2>/dev/null
   git -C $wt checkout -- . ; git -C $wt clean -fdq
